@@ -7,6 +7,7 @@ import (
 	gocontext "context"
 	"errors"
 	"fmt"
+	"net/http"
 	"os"
 	"reflect"
 	"runtime"
@@ -90,20 +91,22 @@ type Env struct {
 	// GRPCAfterHook, if set, runs after the service handled the request, before the response is returned.
 	GRPCAfterHook func(method string, req proto.Message)
 
-	mu        sync.Mutex
-	svc       *service.OrdaService
-	mgrs      *managers.Managers
-	instances int
-	svcs      []*service.OrdaService // all instances (svcs[0] == svc)
-	mgrsAll   []*managers.Managers
-	remotes   []*RemoteInstance // server instances running in child processes
-	nRemotes  int
-	rr        uint32
-	closed    bool
-	grpcSrv   *grpc.Server
-	grpcAddr  string
-	cancels   map[int]gocontext.CancelFunc
-	cancelSeq int
+	mu         sync.Mutex
+	svc        *service.OrdaService
+	mgrs       *managers.Managers
+	instances  int
+	svcs       []*service.OrdaService // all instances (svcs[0] == svc)
+	mgrsAll    []*managers.Managers
+	remotes    []*RemoteInstance // server instances running in child processes
+	nRemotes   int
+	rr         uint32
+	closed     bool
+	grpcSrv    *grpc.Server
+	grpcAddr   string
+	rest       http.Handler
+	restCancel func()
+	cancels    map[int]gocontext.CancelFunc
+	cancelSeq  int
 
 	inFlight int32
 	timedOut int32
@@ -303,6 +306,9 @@ func (e *Env) Close() {
 	}
 	e.closed = true
 	gs := e.grpcSrv
+	if e.restCancel != nil {
+		e.restCancel() // closes the gateway's connection to the gRPC listener
+	}
 	cancels := e.cancels
 	e.cancels = map[int]gocontext.CancelFunc{}
 	mgrs := e.mgrsAll
